@@ -252,6 +252,8 @@ CHAIN_REQUESTS = [
     ('m0.', 'import m0\nm0.', (2, 3)), ('m1.', 'import m1\nm1.', (2, 3)), ('m2.', 'import m2\nm2.', (2, 3)), ('m3.re3.', 'import m3\nm3.re3.', (2, 7)),
     ('m1.re3.', 'import m1\nm1.re3.', (2, 7)), ('pk.', 'import pk\npk.', (2, 3)), ('pk.inner.', 'import pk\npk.inner.', (2, 9)),
     ('star-names', 'from m1 import *\nown', (2, 3)), ('lint', 'from m1 import *\nprint(base, own1, re3)\n', None),
+    # requests that fail (the editor is in the middle of a line): the exception leaves the change-checking context as it does in the server
+    ('unparsable-request', 'import m1\ndef f(:\n', (2, 5)), ('unparsable-lint', 'from m1 import *\nprint(base\n', None),
 ]
 
 EDIT_REPLAY = '''import sys, os, tempfile, shutil; sys.path.insert(0, %(repo)r)
@@ -264,10 +266,13 @@ def write(name, text):
     fn = os.path.join(d, name); os.makedirs(os.path.dirname(fn), exist_ok=True)
     open(fn, 'w').write(text); clock[0] += 10; os.utime(fn, (clock[0], clock[0]))
 def ask(p, req):
-    with p.check_changes():
-        if req[2] is None:
-            return [x[:4] for x in lint(p, req[1], os.path.join(d, 'edited.py'))]
-        return assist(p, req[1], req[2], os.path.join(d, 'edited.py'))[1]
+    try:
+        with p.check_changes():
+            if req[2] is None:
+                return [x[:4] for x in lint(p, req[1], os.path.join(d, 'edited.py'))]
+            return assist(p, req[1], req[2], os.path.join(d, 'edited.py'))[1]
+    except Exception as e:
+        return '<raised %%s>' %% type(e).__name__
 try:
     for name, text in %(initial)r.items(): write(name, text)
     p = Project([d])
@@ -286,8 +291,8 @@ finally:
 
 @harness(['C09'], 'supp.project.Project / supp.module.SourceModule [request - edit - request histories against a fresh project]',
          bounded='a project of 7 modules in 1 package (one star-importing a module that does not exist yet) with import, from-import, star-import and re-export edges (chain of length 4): every history '
-                 'request; edit; request  over 9 requests and 13 edits (rewrite of each module to each of its variants with a new mtime, touch), '
-                 'and 300 histories  request; edit; request; edit; request  drawn with a fixed seed')
+                 'request; edit; request  over 11 requests (2 of which fail inside the change-checking context) and 13 edits (rewrite of each module to each of its variants with a new mtime, touch), '
+                 'every history  failing request; request; edit; the same request, and 300 histories  request; edit; request; edit; request  drawn with a fixed seed')
 def edit_histories(run):
     """BOUNDED stand-in for the claim of C09 itself: after any history of edits (each with a new modification time) interleaved with requests,
     a request inside check_changes() on the long-lived project returns what a fresh project returns on the same disk state - also when the
@@ -309,6 +314,8 @@ def edit_histories(run):
         edits.append(('rewrite', 'm5.py', 'five = 5\n'))
         initial = {name: variants[0] for name, variants in CHAIN.items()}
         hists = [[('request', q1), e, ('request', q2)] for q1 in CHAIN_REQUESTS for e in edits for q2 in CHAIN_REQUESTS]
+        # a failed request; a request that loads the modules; an edit; the same request again
+        hists += [[('request', f), ('request', q), e, ('request', q)] for f in CHAIN_REQUESTS[-2:] for q in CHAIN_REQUESTS[:-2] for e in edits]
         rnd = random.Random(20260927)
         for _ in range(300):
             hists.append([('request', rnd.choice(CHAIN_REQUESTS)), rnd.choice(edits), ('request', rnd.choice(CHAIN_REQUESTS)), rnd.choice(edits),
@@ -327,13 +334,14 @@ def edit_histories(run):
                     os.utime(fn, (clock[0], clock[0]))
 
                 def ask(project, req):
-                    with project.check_changes():
-                        try:
+                    # as Server.assist / Server.lint do: an exception of the request propagates through the context
+                    try:
+                        with project.check_changes():
                             if req[2] is None:
                                 return [d[:4] for d in L.lint(project, req[1], os.path.join(top, 'edited.py'))]
                             return A.assist(project, req[1], req[2], os.path.join(top, 'edited.py'))[1]
-                        except Exception as e:
-                            return '<raised %s>' % type(e).__name__
+                    except Exception as e:
+                        return '<raised %s>' % type(e).__name__
                 for name, text in initial.items():
                     write(name, text)
                 p = Pj.Project([top])
